@@ -128,6 +128,7 @@ fn main() {
             let code = match prop.as_str() {
                 "C03" => extras::c03_race("C03", seed, if thorough { 1_200_000 } else { 40_000 }, &rout, &mut part),
                 "C06" => extras::c06_kill_race(seed, if thorough { 40_000 } else { 2_000 }, &rout, &mut part),
+                "C12" => extras::c03_race("C12", seed ^ 0x12, if thorough { 600_000 } else { 20_000 }, &rout, &mut part),
                 "C13" => extras::c13_counter_race(seed, if thorough { 300 } else { 30 }, &rout, &mut part),
                 "C17" => extras::c03_race("C17", seed ^ 0x17, if thorough { 600_000 } else { 20_000 }, &rout, &mut part),
                 "C05" => extras::c05_laws(seed, if thorough { 200_000 } else { 5_000 }, &rout, &mut part),
